@@ -791,7 +791,7 @@ func ruleLatch(c *Ctx, rule string) {
 					if stripConv(sv) == ssa.Value(add.Params[1]) {
 						hasCh = true
 					}
-					if stripConv(sv) == ssa.Value(add.Params[2]) {
+					if stripConv(sv) == paramAt(add, 2) {
 						hasKey = true
 					}
 				}
@@ -934,6 +934,10 @@ func ruleUnregisterAndCallbacks(c *Ctx, r6, r7 string) {
 	okKey := len(adds) == 2
 	for _, ad := range adds {
 		// key: phi(nil, affinityKey(ch))
+		if len(ad.Call.Args) < 3 {
+			okKey = false
+			continue
+		}
 		phi, isPhi := ad.Call.Args[2].(*ssa.Phi)
 		if !isPhi {
 			okKey = false
